@@ -411,14 +411,6 @@ func ruleR01d(c *Check, rule string) {
 // through a loop that waits on every task and leaves on error.
 func waitAllObligation(c *Check, rule string, fn *ssa.Function, submits []ssa.CallInstruction) {
 	key := "wait-all-tasks/" + c.P.FuncName(fn)
-	waits := engine.Calls(fn, func(s ssa.CallInstruction) bool {
-		return strings.HasSuffix(engine.CalleeName(s), ".Wait") && s.Common().IsInvoke()
-	})
-	if len(waits) == 0 {
-		c.Bad(rule, key, "tasks are submitted but never waited for", c.P.InstrPos(submits[0]))
-		return
-	}
-	// the wait receiver must derive from the submit results
 	var srcs []Node
 	for _, s := range submits {
 		if v := s.Value(); v != nil {
@@ -426,44 +418,104 @@ func waitAllObligation(c *Check, rule string, fn *ssa.Function, submits []ssa.Ca
 		}
 	}
 	reach := c.G.Forward(srcs, func(e *engine.Edge) bool { return e.Via != nil && e.Via.Parent() == fn })
+	isWait := func(s ssa.CallInstruction) bool {
+		return strings.HasSuffix(engine.CalleeName(s), ".Wait") && s.Common().IsInvoke()
+	}
+	// (a) the waiting loop is in fn itself
 	var w ssa.CallInstruction
+	waits := engine.Calls(fn, isWait)
 	for _, x := range waits {
 		if reach.Has(x.Common().Value) {
 			w = x
 		}
 	}
-	if w == nil {
-		c.Bad(rule, key, "the Wait call does not wait on the submitted tasks", c.P.InstrPos(waits[0]))
+	if w != nil {
+		if bad, at := waitLoopProblem(c, fn, w); bad != "" {
+			c.Bad(rule, key, bad, c.P.InstrPos(at))
+		} else {
+			c.OK(rule, key, "every submitted task is waited for in a full range loop; an error leaves without returning a result", c.P.InstrPos(w))
+		}
 		return
 	}
-	if !engine.InLoop(w) {
-		c.Bad(rule, key, "Wait is not called in a loop over the submitted tasks: only some tasks are awaited", c.P.InstrPos(w))
+	// (b) the submitted tasks are handed to a helper that waits for all of them and forwards the first error
+	for _, s := range engine.SitesIn(fn) {
+		call, ok := s.(*ssa.Call)
+		if !ok {
+			continue
+		}
+		h := call.Call.StaticCallee()
+		if h == nil || len(h.Blocks) == 0 || engine.ErrResultIndex(h.Signature) < 0 {
+			continue
+		}
+		for i, a := range call.Call.Args {
+			if !reach.Has(a) || i >= len(h.Params) {
+				continue
+			}
+			prm := h.Params[i]
+			hreach := c.G.Forward([]Node{prm}, func(e *engine.Edge) bool { return e.Via != nil && e.Via.Parent() == h })
+			var hw ssa.CallInstruction
+			for _, x := range engine.Calls(h, isWait) {
+				if hreach.Has(x.Common().Value) {
+					hw = x
+				}
+			}
+			if hw == nil {
+				continue
+			}
+			if bad, at := waitLoopProblem(c, h, hw); bad != "" {
+				c.Bad(rule, key, "in the waiting helper "+c.P.FuncName(h)+": "+bad, c.P.InstrPos(at))
+				return
+			}
+			// the helper's loop ranges over the parameter itself
+			if lp := engine.LoopOf(hw); lp == nil || !hreach.Has(lp.RangedValue()) {
+				c.Bad(rule, key, "the waiting helper "+c.P.FuncName(h)+" does not range over the task list it is given", c.P.InstrPos(hw))
+				return
+			}
+			isSuccess := func(in ssa.Instruction) bool {
+				r, ok := in.(*ssa.Return)
+				return ok && in.Parent() == fn && isNilErrReturn(r)
+			}
+			if ok, at := engine.PathExists(fn, s, isSuccess, engine.PathQuery{CutEdge: engine.NilErrEdgesOf(s)}); ok {
+				c.Bad(rule, key, "a success return is reachable although the waiting helper reported a failed task", c.P.InstrPos(at))
+				return
+			}
+			c.OK(rule, key, "the submitted tasks are handed to "+c.P.FuncName(h)+", which waits for every one of them in a full range loop and returns the first error; success is returned only when it returned nil", c.P.InstrPos(s))
+			return
+		}
+	}
+	if len(waits) == 0 {
+		c.Bad(rule, key, "tasks are submitted but never waited for", c.P.InstrPos(submits[0]))
 		return
+	}
+	c.Bad(rule, key, "the Wait call does not wait on the submitted tasks", c.P.InstrPos(waits[0]))
+}
+
+// waitLoopProblem: w is a Wait call on the tasks; it must sit in a full range loop that is left early only
+// with an error, and no success return may follow a failed Wait. Returns "" when that holds.
+func waitLoopProblem(c *Check, fn *ssa.Function, w ssa.CallInstruction) (string, ssa.Instruction) {
+	if !engine.InLoop(w) {
+		return "Wait is not called in a loop over the submitted tasks: only some tasks are awaited", w
 	}
 	lp := engine.LoopOf(w)
 	if lp == nil || !lp.IsFullRange() {
-		c.Bad(rule, key, "the loop around Wait is not a full range over the task slice (index from 0 to len, step 1)", c.P.InstrPos(w))
-		return
+		return "the loop around Wait is not a full range over the task slice (index from 0 to len, step 1)", w
 	}
 	// success returns: reachable from the Wait only via the nil-error edge, and loop exits
 	// other than the range-exhausted edge may not reach a success return
 	isSuccess := func(in ssa.Instruction) bool {
 		r, ok := in.(*ssa.Return)
-		return ok && isNilErrReturn(r)
+		return ok && in.Parent() == fn && isNilErrReturn(r)
 	}
 	if ok, at := engine.PathExists(fn, w, isSuccess, engine.PathQuery{CutEdge: engine.NilErrEdgesOf(w)}); ok {
-		c.Bad(rule, key, "a success return is reachable after a task's Wait returned an error", c.P.InstrPos(at))
-		return
+		return "a success return is reachable after a task's Wait returned an error", at
 	}
 	if again, _ := engine.PathExists(fn, w, engine.IsInstr(w), engine.PathQuery{CutEdge: engine.NilErrEdgesOf(w)}); again {
-		c.Bad(rule, key, "the error of one task's Wait is overwritten by the next iteration before it is tested: only the last task's failure is noticed, so a missing or unwritable earlier output still yields a result", c.P.InstrPos(w))
-		return
+		return "the error of one task's Wait is overwritten by the next iteration before it is tested: only the last task's failure is noticed, so a missing or unwritable earlier output still yields a result", w
 	}
 	if why := lp.EarlyExitReaches(isSuccess); why != "" {
-		c.Bad(rule, key, "the wait loop can be left early towards a success return: "+why, c.P.InstrPos(w))
-		return
+		return "the wait loop can be left early towards a success return: " + why, w
 	}
-	c.OK(rule, key, "every submitted task is waited for in a full range loop; an error leaves without returning a result", c.P.InstrPos(w))
+	return "", nil
 }
 
 func dirWriteOrder(c *Check, rule string) {
